@@ -188,6 +188,33 @@ func (i *Interp) block(pred func() bool, what string) {
 	cur.what = ""
 }
 
+// yield hands the processor to another runnable thread if there is one (not
+// counted as a preemption); which one is a scheduler decision.
+func (i *Interp) yield() {
+	cur := i.cur
+	var others []*thread
+	for _, t := range i.runnable() {
+		if t != cur {
+			others = append(others, t)
+		}
+	}
+	if len(others) == 0 {
+		return
+	}
+	next := others[0]
+	if i.schedOn && len(others) > 1 {
+		next = others[i.choose(len(others), 's')]
+	}
+	cur.what = "yield"
+	i.cur = next
+	next.wake <- struct{}{}
+	<-cur.wake
+	if i.aborting {
+		panic(abortPath{i.abortWhy})
+	}
+	cur.what = ""
+}
+
 // schedPoint is a possible context switch (only in schedule mode).
 func (i *Interp) schedPoint(what string) {
 	if !i.schedOn || i.preempts <= 0 {
